@@ -22,7 +22,7 @@ def is_nan(x):
 
 class C03(Harness):
     pid = "C03"
-    labels = ("one-value-per-step", "index-is-cutoff-plus-fh", "index-increasing", "cutoff-after-fit", "cutoff-after-update", "finite-values", "shift-invariant-values", "shift-invariant-index", "value-independent-of-other-steps")
+    labels = ("one-value-per-step", "index-is-cutoff-plus-fh", "index-increasing", "cutoff-after-fit", "cutoff-after-update", "finite-values", "shift-invariant-values", "shift-invariant-index", "value-independent-of-other-steps", "same-numbers-other-kind")
     stubs = (
         "regressors of the reducers := recording stub with uninterpreted outputs per fitted estimator and feature row",
         "members of composites := recording member forecasters (uninterpreted forecasts); pipeline transformer := elementwise uninterpreted pair",
@@ -194,10 +194,41 @@ class C03(Harness):
             out["singles"] = singles
         return out
 
+    def _run_twin(self, W, k, inp):
+        """One forecaster, three requests: horizon A, then the horizon with the *same numbers but the other kind*
+        (relative <-> absolute), then A again.  The cutoff is -d (d = 1 or 2), so both kinds are out-of-sample and
+        differ by d."""
+        np, pd = W.np, W.pd
+        FH = W.load("sktime.forecasting.base").ForecastingHorizon
+        n, nb = inp["n"], len(inp["u"])
+        d = 1 if inp["range_index"] else 2
+        origin = -d - nb - (n - 1)
+        f = self._build(W, k, inp, [])
+
+        def ser(vals, start):
+            idx = pd.RangeIndex(start, start + len(vals)) if inp["range_index"] else pd.Index([start + i for i in range(len(vals))])
+            return pd.Series(list(vals), index=idx)
+
+        nums = list(inp["fh"])
+        mk = lambda absolute: FH(np.array(nums), is_relative=not absolute)  # noqa: E731
+        first_abs = inp["absolute"]
+        if inp["fh_in_fit"]:
+            f.fit(ser(inp["y"], origin), fh=mk(first_abs))
+        else:
+            f.fit(ser(inp["y"], origin))
+        if nb:
+            f.update(ser(inp["u"], origin + n))
+        p1 = f.predict() if inp["fh_in_fit"] else f.predict(mk(first_abs))
+        p2 = f.predict(mk(not first_abs))
+        p3 = f.predict(mk(first_abs))
+        return {"d": d, "first_abs": first_abs, "p1": [L(p1.index), L(p1.values)], "p2": [L(p2.index), L(p2.values)], "p3": [L(p3.index), L(p3.values)]}
+
     def scenario(self, W, inp, cell):
         self._curW = W
         k = cell["kind"]
         out = {"a": self._run(W, k, inp, inp["s0"])}
+        if k not in REQUIRED_FH and not inp.get("as_unsorted_index"):
+            out["twin"] = self._run_twin(W, k, inp)
         if k in SHIFTABLE:
             out["b"] = self._run(W, k, inp, inp["s0"] + inp["delta"])
         return out
@@ -226,6 +257,17 @@ class C03(Harness):
                 if len(sg[0]) == 1:
                     P.eq("value-independent-of-other-steps", sg[0][0], c + fh[i])
                     P.eq("value-independent-of-other-steps", sg[1][0], o["values"][i])
+        if "twin" in out:
+            t = out["twin"]
+            d = t["d"]
+            lab_abs, lab_rel = list(fh), [h - d for h in fh]
+            e1, e2 = (lab_abs, lab_rel) if t["first_abs"] else (lab_rel, lab_abs)
+            for nm, exp in (("p1", e1), ("p2", e2), ("p3", e1)):
+                P.check("same-numbers-other-kind", len(t[nm][0]) == len(exp), {"call": nm})
+                for lab, e in zip(t[nm][0], exp):
+                    P.eq("same-numbers-other-kind", lab, e, {"call": nm})
+            for va, vb in zip(t["p1"][1], t["p3"][1]):
+                P.eq("same-numbers-other-kind", va, vb, {"call": "p3-values"})
         if "b" in out:
             for va, vb in zip(out["a"]["values"], out["b"]["values"]):
                 P.eq("shift-invariant-values", va, vb)
